@@ -75,7 +75,10 @@ func (env *ExecEnv) Get(name string) (v Var, set bool) {
 			Name:  name,
 			Value: value,
 		}
-		set = value != ""
+		// a special parameter is set although it may be null ($- while
+		// no option is on), except $! while there is no background
+		// command
+		set = name != "!"
 		return
 	}
 Default:
